@@ -541,9 +541,9 @@ class SQLBuilder(object):
             if start[0] == 'VALUE':
                 start_value = start[1]
                 if start_value >= 0 and stop_value >= 0:
-                    len_sql = [ 'VALUE', stop_value - start_value ]
+                    len_sql = [ 'VALUE', max(stop_value - start_value, 0) ]
                 elif start_value < 0 and stop_value < 0:
-                    len_sql = [ 'VALUE', stop_value - start_value ]
+                    len_sql = [ 'VALUE', max(stop_value - start_value, 0) ]
                 elif start_value >= 0 and stop_value < 0:
                     len_sql = [ 'SUB', [ 'LENGTH', expr ], [ 'VALUE', start_value - stop_value ]]
                     len_sql = [ 'MAX', False, len_sql, [ 'VALUE', 0 ] ]
